@@ -182,6 +182,7 @@ class Check:
 
     def violation(self, sig, text, replay):
         """sig: structural signature used to match known findings."""
+        text = "".join(ch if ch.isprintable() else "\\x%02x" % ord(ch) if ord(ch) < 256 else "?" for ch in text)
         for k in known_findings(self.prop):
             if k.get("status") == "known" and all(sig.get(a) == b for a, b in k.get("match", {}).items()):
                 if k["id"] not in [h["id"] for h in self.known_hits]:
